@@ -830,7 +830,7 @@ func patterns(n int, full bool, r *rand.Rand) [][]string {
 	}
 	extra := 2
 	if full {
-		extra = 20
+		extra = 40
 	}
 	for k := 0; k < extra; k++ {
 		p := make([]string, n)
